@@ -624,6 +624,10 @@ func c10L1(c *core.Ctx) {
 				// a period that keeps no day, every day or is inverted: an unreadable file is an error all the same
 				args = append(args, randomPeriod(pr, func(y, m, d int) string { return fmt.Sprintf("%04d/%02d/%02d", y, m, d) })...)
 			}
+			if (vi+ci)%3 == 0 {
+				// limits of 0 and 1 (nothing may be nested): an unreadable file is still the error that is reported
+				args = append(args, "--maxdepth", []string{"0", "1", "0"}[(vi+ci)%3+ci%2])
+			}
 			args = append(args, cmd.args...)
 			if cmd.lintFile != "" {
 				f := v.d
